@@ -11,6 +11,7 @@ package typegram
 
 import (
 	"bytes"
+	"context"
 	"database/sql"
 	"database/sql/driver"
 	"encoding/gob"
@@ -22,6 +23,8 @@ import (
 	"strconv"
 	"strings"
 	"time"
+
+	"gorm.io/gorm/schema"
 )
 
 // ---------------------------------------------------------------------------
@@ -87,6 +90,51 @@ func (l *Level) Scan(v interface{}) error {
 	}
 	return nil
 }
+
+// Secret is a customized serializer TYPE: the field type itself implements
+// schema.SerializerInterface (documented gorm feature). Stored as "enc:<s>";
+// the empty secret is stored as NULL and NULL is loaded as the empty secret
+// (Scan leaves the receiver untouched for NULL, the usual implementation).
+type Secret string
+
+func (s *Secret) Scan(ctx context.Context, field *schema.Field, dst reflect.Value, dbValue interface{}) error {
+	switch v := dbValue.(type) {
+	case nil:
+	case []byte:
+		*s = Secret(strings.TrimPrefix(string(v), "enc:"))
+	case string:
+		*s = Secret(strings.TrimPrefix(v, "enc:"))
+	default:
+		return fmt.Errorf("Secret.Scan: unsupported %T", dbValue)
+	}
+	return nil
+}
+
+func (s Secret) Value(ctx context.Context, field *schema.Field, dst reflect.Value, fieldValue interface{}) (interface{}, error) {
+	if s == "" {
+		return nil, nil
+	}
+	return "enc:" + string(s), nil
+}
+
+func secretCell(v interface{}) []interface{} {
+	var s Secret
+	switch t := v.(type) {
+	case Secret:
+		s = t
+	case *Secret:
+		if t == nil {
+			return []interface{}{nil}
+		}
+		s = *t
+	}
+	if s == "" {
+		return []interface{}{nil}
+	}
+	return []interface{}{"enc:" + string(s)}
+}
+
+func pSecret(s Secret) *Secret { return &s }
 
 // Payload is the struct serialised by serializer:json.
 type Payload struct {
@@ -456,6 +504,19 @@ func buildSpecs() []*Spec {
 	add(ux("unixtime_int64", int64(0), v("0", int64(0)), v("1.6e9", int64(1600000000)), v("-1", int64(-1))))
 	add(with(ux("unixtime_uint", uint(0), v("0", uint(0)), v("1.6e9", uint(1600000000))), func(s *Spec) { s.Unsigned = true }))
 	add(ux("unixtime_ptr_int64", (*int64)(nil), v("nil", (*int64)(nil)), v("&1.6e9", pInt64(1600000000)), v("&-1", pInt64(-1))))
+
+	// customized serializer types (the value IS the serializer instance);
+	// the empty secret is the NULL row
+	add(with(plain("custom_serializer", Secret(""), v("empty=NULL", Secret("")), v("s1", Secret("s1")), v("s2", Secret("s'2é")), v("s3", Secret("s3"))), func(s *Spec) {
+		s.Serializer = "custom"
+		s.Cells = secretCell
+		s.MapRaw = true
+	}))
+	add(with(plain("ptr_custom_serializer", (*Secret)(nil), v("&t1", pSecret("t1")), v("&empty=NULL", pSecret("")), v("&t2", pSecret("t'2")), v("&t3", pSecret("t3"))), func(s *Spec) {
+		s.Serializer = "custom"
+		s.Cells = secretCell
+		s.MapRaw = true
+	}))
 
 	// --- embedded ----------------------------------------------------------
 	add(&Spec{Name: "embedded", Types: embTypes, TagTmpl: "embedded", ColTmpl: []string{"ea%d", "eb%d"}, Values: embVals, Cells: embCell, MapRaw: true})
